@@ -6,6 +6,14 @@
 // Input (VERIF_IN): {"id":N,"cfg":{close,workers,keys,maxPerKey,maxKeys,life,
 // stale,period,maxTime,ops:{w:[[op,arg]..]}},"pol":"list|db|rand","sched":[..],
 // "delays":[..],"seed":S,"selrot":K}. Output (VERIF_OUT): NDJSON events.
+//
+// A "get" op may carry the state of the caller's context as third element
+// (Ctxs of spec/Pool.tla): "dead" (cancelled, or - harness-only spelling the
+// model is independent of, chosen by the parity of the behaviour id - past its
+// deadline, before the call), "probe" (cancelled by the first Usable() probe of
+// this Get: the caller gave up during the round trip), "nonew" (live, but a new
+// connection cannot be established). cfg.New honours the context as a dialer
+// does. A Get that returns an error is logged as GetFail: the worker holds nothing.
 package poolcheck
 
 import (
@@ -60,7 +68,16 @@ type conn struct {
 	pooled bool // its Return has completed and it has not been handed out since
 }
 
-func (c *conn) Usable() bool         { return c.usable && c.closes == 0 }
+func (c *conn) Usable() bool {
+	// the probe takes a round trip: a caller with a "probe" context gives up meanwhile
+	if g := vsched.Current(); g != nil {
+		if cancel := c.r.probe[g.Name]; cancel != nil {
+			delete(c.r.probe, g.Name)
+			cancel()
+		}
+	}
+	return c.usable && c.closes == 0
+}
 func (c *conn) LastUseAt() time.Time { return c.last }
 func (c *conn) Close() error {
 	by := false
@@ -87,11 +104,22 @@ type run struct {
 	p        *pool.P
 	conns    []*conn
 	nAsync   int
+	probe    map[string]context.CancelFunc // worker inside Get -> cancel of its context, pulled by the first Usable()
+	noNew    map[string]bool               // worker inside Get -> the dial fails
 }
 
 func (r *run) now() int { return int(time.Since(r.t0) / r.unit) }
 
+var errDial = fmt.Errorf("dial: connection refused")
+
 func (r *run) newConn(ctx context.Context, key string) (pool.Conn, error) {
+	// what a dialer does with the caller's context
+	if err := ctx.Err(); err != nil {
+		return nil, err
+	}
+	if g := vsched.Current(); g != nil && r.noNew[g.Name] {
+		return nil, errDial
+	}
 	c := &conn{id: fmt.Sprintf("c%d", len(r.conns)+1), r: r, last: time.Now(), usable: true, fresh: true}
 	r.conns = append(r.conns, c)
 	return c, nil
@@ -102,6 +130,10 @@ func (r *run) worker(w string, ops [][]string) func() {
 		var held *conn
 		heldKey := ""
 		for i, op := range ops {
+			// an op that does not apply (nothing to return after a Get that failed) is no step at all
+			if (op[0] == "get") == (held != nil) {
+				continue
+			}
 			if i > 0 {
 				vsched.Yield("op")
 			}
@@ -110,10 +142,36 @@ func (r *run) worker(w string, ops [][]string) func() {
 				if held != nil {
 					continue
 				}
-				r.tr.Emit("GetCall", vtrace.Ev{"w": w, "key": op[1], "now": r.now()})
-				pc, err := r.p.Get(context.Background(), op[1])
+				cx := "live"
+				if len(op) > 2 && op[2] != "" {
+					cx = op[2]
+				}
+				ctx, cancel := context.WithCancel(context.Background())
+				how := ""
+				switch cx {
+				case "dead":
+					if r.b.ID%2 == 0 {
+						cancel()
+						how = "cancelled"
+					} else {
+						cancel()
+						ctx, cancel = context.WithDeadline(context.Background(), time.Now().Add(-time.Second))
+						how = "deadline"
+					}
+				case "probe":
+					r.probe[w] = cancel
+				case "nonew":
+					r.noNew[w] = true
+				}
+				r.tr.Emit("GetCall", vtrace.Ev{"w": w, "key": op[1], "now": r.now(), "cx": cx, "how": how})
+				pc, err := r.p.Get(ctx, op[1])
+				delete(r.probe, w)
+				delete(r.noNew, w)
+				cancel()
 				if err != nil || pc == nil {
-					panic(fmt.Sprint("Get: ", err))
+					// no connection: the delivery fails, the worker holds nothing
+					r.tr.Emit("GetFail", vtrace.Ev{"w": w, "now": r.now(), "err": fmt.Sprint(err)})
+					continue
 				}
 				c := pc.(*conn)
 				fresh := c.fresh
@@ -354,7 +412,8 @@ func (r *run) loop() {
 
 func runBehaviour(t *testing.T, b Behaviour, w *bufio.Writer) {
 	synctest.Test(t, func(t *testing.T) {
-		r := &run{t: t, b: b, t0: time.Now(), rng: rand.New(rand.NewSource(b.Seed)), maxStep: 3000}
+		r := &run{t: t, b: b, t0: time.Now(), rng: rand.New(rand.NewSource(b.Seed)), maxStep: 3000,
+			probe: map[string]context.CancelFunc{}, noNew: map[string]bool{}}
 		r.tr = vtrace.New(w, b.ID)
 		c := b.Cfg
 		r.tr.Emit("Cfg", vtrace.Ev{"close": c.Close, "workers": append([]string{}, c.Workers...), "keys": c.Keys,
